@@ -80,6 +80,7 @@ func (c *zzPipe) SetWriteDeadline(t time.Time) error { return nil }
 
 type zzListener struct {
 	conns   chan net.Conn
+	errs    chan error
 	closedC chan struct{}
 	closed  bool
 }
@@ -88,6 +89,8 @@ func (l *zzListener) AcceptWithContext(ctx context.Context) (net.Conn, error) {
 	select {
 	case c := <-l.conns:
 		return c, nil
+	case err := <-l.errs:
+		return nil, err // a failed connection attempt
 	case <-l.closedC:
 		return nil, coapNet.ErrListenerIsClosed
 	case <-ctx.Done():
@@ -178,7 +181,7 @@ func zzC10_tcp_server() {
 			_ = w.SetResponse(codes.Content, message.AppOctets, bytes.NewReader([]byte{id, tag}))
 		}
 	}))
-	l := &zzListener{conns: make(chan net.Conn, 4), closedC: make(chan struct{})}
+	l := &zzListener{conns: make(chan net.Conn, 4), errs: make(chan error, 2), closedC: make(chan struct{})}
 	served := false
 	go func() {
 		_ = srv.Serve(l)
@@ -187,10 +190,21 @@ func zzC10_tcp_server() {
 	symSchedCanonical(symParam("canonical", 1) == 1)
 	good, bad := zzNewPipe(1), zzNewPipe(2)
 	l.conns <- net.Conn(good)
-	attack := symChoose("attack", 7)
+	attack := symChoose("attack", 9)
 	when := symChoose("when", 3)
 	t1, t2 := symU8("tag1"), symU8("tag2")
 	misbehave := func() {
+		if attack >= 7 {
+			// a connection attempt that fails in the listener (handshake timeout, reset before accept)
+			if attack == 7 {
+				l.errs <- context.DeadlineExceeded
+			} else {
+				l.errs <- io.ErrUnexpectedEOF
+			}
+			symCover("failed-attempt")
+			symIdle()
+			return
+		}
 		l.conns <- net.Conn(bad)
 		switch attack {
 		case 0: // arbitrary bytes
@@ -260,7 +274,9 @@ func zzC10_tcp_server() {
 	symWaitUntil(func() bool { return served })
 	symIdle()
 	symAssert(good.closed && third.closed, "Stop closes the peers' sockets")
-	symAssert(bad.closed, "and the misbehaving peer's socket")
+	if attack < 7 {
+		symAssert(bad.closed, "and the misbehaving peer's socket")
+	}
 	srv.Stop()
 	symCover("stopped")
 }
@@ -275,7 +291,7 @@ func zzC10_selftest() {
 		c.DisableTCPSignalMessageCSM = true
 		c.CreateInactivityMonitor = nil
 	}))
-	l := &zzListener{conns: make(chan net.Conn, 4), closedC: make(chan struct{})}
+	l := &zzListener{conns: make(chan net.Conn, 4), errs: make(chan error, 2), closedC: make(chan struct{})}
 	served := false
 	go func() {
 		_ = srv.Serve(l)
